@@ -473,7 +473,7 @@ func TestVerif_C30_StatesE4(t *testing.T) {
 		plans = []plan{
 			{c30Cfg{1, false}, 9, true, false},
 			{c30Cfg{1, true}, 9, true, false},
-			{c30Cfg{2, false}, 8, true, true},
+			{c30Cfg{2, false}, 7, true, true},
 			{c30Cfg{2, true}, 7, true, true},
 		}
 	} else {
